@@ -24,8 +24,8 @@ TRUSTED = [
     "translator tools/gen_reinit.py: the reload thread's straight-line program (readConfig/lock/flush/clearPending/unlock), whether "
     "ares_reinit() and ares_destroy() join it while holding the channel lock; conditional or helper-hidden lock calls are an "
     "extraction failure (committed copy kept, reported in the evidence), not a detected regression",
-    "hand-written transition system lean/CaresModel/Reinit.lean (one application thread calling ares_reinit() any number of times, "
-    "then ares_destroy(); every reload thread ever spawned), parametric in the generated program",
+    "hand-written transition system lean/CaresModel/Reinit.lean (N caller threads - any N - calling ares_reinit() any number of times in any interleaving, "
+    "one thread calling ares_destroy() once; every reload thread ever spawned), parametric in the generated program",
     "harness/h_thread.c (real event thread on epoll/poll/select, loopback UDP server, client threads), tools/threadlib.py",
     "ThreadSanitizer (thorough tier) is supporting evidence for the data-race part, not a proof",
 ]
@@ -55,7 +55,7 @@ LEVEL_TEXT = ("Proof (partial): Lean 4 theorems over a transition system of the 
               "interleaving: the only lock nesting is channel lock -> event mutex (no lock-order deadlock; the event thread "
               "always releases its mutex without blocking), no wake-up is lost (C07), wait-empty reports success only with an "
               "empty queue; deadlock-freedom of ares_reinit()/ares_destroy() against the configuration-reload thread for every "
-              "interleaving and any number of reinit calls, with at most one live reload thread, over the reload thread's program "
+              "interleaving of any number of concurrent callers and reinit calls, with at most one live reload thread, over the reload thread's program "
               "as re-extracted from the source on every run (kernel-checked deadlock schedule for the variant that clears "
               "reinit_pending early); plus decide-obligations over a lock-discipline table regenerated from the source (every public "
               "entry point that touches the channel locks it, and touches it only between its first lock and last unlock - the pinned "
